@@ -118,7 +118,7 @@ Qed.
 Theorem finish_ok p r : proto_ok p = true -> finish p r = Ret (answers_200 (p_validates p) r).
 Proof.
   intros H. destruct (proto_ok_inv p H) as (_ & _ & _ & Hc & Hcmp & Hcode & Hcd & Hce & Hbo).
-  unfold finish. rewrite Hc, Hcmp, Hcode, Hcd, Hce, Hbo. destruct r as [c ok| |]; try reflexivity.
+  unfold finish. rewrite Hc, Hcmp, Hcode, Hcd, Hce, Hbo. destruct r as [c ok|rs|]; try reflexivity.
   unfold answers_200.
   assert (G : match parse_response c with
               | Ok (sc, _, _) =>
